@@ -48,7 +48,7 @@ def python_equal_collision(universe):
     return False
 
 
-def one(rep, rng, j):
+def one(rep, rng, j, fixed=None):
     import importlib
     import json
     import os
@@ -64,13 +64,19 @@ def one(rep, rng, j):
         lab = labtech.Lab(storage=make_storage(skind, store), runner_backend='serial')
         descs = []
         marker = rng.random() < 0.04
-        for _ in range(rng.randrange(2, 8)):
+        if fixed is not None:
+            skind = fixed.get('storage', 'local')
+            lab = labtech.Lab(storage=make_storage(skind, store), runner_backend='serial')
+            marker = '"m"' in json.dumps(fixed['descs'])
+        for _ in range(rng.randrange(2, 8) if fixed is None else 0):
             m, c = rng.choice(valgen.TASKS)
             p = valgen.gen_value(rng, rng.choice([1, 2, 3, 4]))
             if marker and rng.random() < 0.5:
                 p = {'d': [['x', {'m': 'enum', 'of': list(rng.choice(valgen.ENUMS))}]]}
             q = valgen.gen_value(rng, 1) if rng.random() < 0.3 else {'s': None}
             descs.append([m, c, p, q])
+        if fixed is not None:
+            descs = fixed['descs']
         wit = {'descs': descs, 'storage': skind}
         tops = [build(*d) for d in descs]
         if python_equal_collision(all_tasks(tops)):
@@ -180,33 +186,4 @@ def replay(rep, wit):
     import random
     rep.case('a', True)
     rep.case('b', True)
-    descs = wit['witness']['descs']
-
-    class FixedRng(random.Random):
-        pass
-    # re-run the oracle on exactly these descriptions
-    import vlab.props.c09 as me
-    rng = random.Random(0)
-    orig = me.one
-
-    def fixed_one():
-        import importlib, os, labtech
-        from vlab import engine, valgen
-        from vlab.props.c07 import build
-        from vlab.storages import make_storage
-        ctl = engine.new_ctl('vlab-c09-')
-        engine.quiet_labtech()
-        lab = labtech.Lab(storage=make_storage(wit['witness'].get('storage', 'local'), os.path.join(ctl, 'store')),
-                          runner_backend='serial')
-        tops = [build(*d) for d in descs]
-        lab.run_tasks(tops, disable_progress=True, disable_top=True)
-        uni = all_tasks(tops)
-        allT = [getattr(importlib.import_module(m), c) for m, c in valgen.TASKS]
-        got = list(lab.cached_tasks(allT))
-        for t in uni:
-            if sum(1 for g in got if type(g) is type(t) and g == t) != 1:
-                rep.violation('reconstructed-unequal', f'{t!r} not returned exactly once', wit['witness'])
-                break
-        import shutil
-        shutil.rmtree(ctl, ignore_errors=True)
-    fixed_one()
+    one(rep, random.Random(0), 0, fixed=wit['witness'])
